@@ -317,6 +317,57 @@ def post_mirrored(run, snap, res, args, kwargs):
     run.held(mon)
 
 
+# ---- do_call(variants=...): the BAF column stays attached to the segment's own coordinates
+
+def _baf_admissible(vals):
+    """Admissible BAF values for the heterozygous frequencies inside a range (docstring rule; ties either side)."""
+    if not vals:
+        return None
+    med = float(np.median(vals))
+    m = float(np.median([abs(v - 0.5) for v in vals]))
+    if len(vals) == 1:
+        return [vals[0], 1 - vals[0]]
+    if abs(med - 0.5) <= 1e-9:
+        return [0.5 + m, 0.5 - m]
+    return [0.5 + m if med > 0.5 else 0.5 - m]
+
+
+def pre_call_baf(run, args, kwargs):
+    variants = args[1] if len(args) > 1 else kwargs.get("variants")
+    if variants is None or not hasattr(variants, "data") or not len(variants):
+        return None
+    filters = args[8] if len(args) > 8 else kwargs.get("filters")
+    purity = args[4] if len(args) > 4 else kwargs.get("purity")
+    cols = list(variants.data.columns)
+    keep = [c for c in ("chromosome", "start", "end", "alt_freq", "n_alt_freq", "zygosity", "n_zygosity") if c in cols]
+    return {"cols": keep, "recs": [dict(zip(keep, t)) for t in cna_records(variants, keep)], "filters": list(filters) if filters else [],
+            "purity": purity, "segs": cna_records(args[0], ["chromosome", "start", "end"]), "index_default": list(args[0].data.index) == list(range(len(args[0])))}
+
+
+def post_call_baf(run, snap, res, args, kwargs):
+    mon = "call.do_call[baf-attached]"
+    if snap is None:
+        return
+    if snap["filters"] or "alt_freq" not in snap["cols"] or "baf" not in res.data.columns:
+        return run.ood(mon, "filters-or-no-frequencies")
+    if snap["purity"] and snap["purity"] < 1.0:
+        return run.ood(mon, "baf-rescaled-for-purity")
+    out = cna_records(res, ["chromosome", "start", "end", "baf"])
+    if [o[:3] for o in out] != snap["segs"]:
+        return run.ood(mon, "rows-changed")
+    recs = _het_subset(snap["recs"], snap["cols"])
+    wit = {"segments": out[:40], "het_snvs": [(r["chromosome"], r["start"], r["alt_freq"]) for r in recs][:80], "default_row_labels": snap["index_default"]}
+    for c, s, e, g in out:
+        vals = [r["alt_freq"] for r in recs if r["chromosome"] == c and r["end"] > s and r["start"] < e and not _isnan(r["alt_freq"])]
+        adm = _baf_admissible(vals)
+        if adm is None:
+            if not _isnan(g):
+                return run.violate(mon, "call-baf-on-segment-without-snvs", f"{c}:{s}-{e} holds no heterozygous SNV but carries baf={g}", wit)
+        elif _isnan(g) or not any(abs(g - a) <= 1e-9 for a in adm):
+            return run.violate(mon, "call-baf-from-another-segment", f"{c}:{s}-{e}: baf={g}, its own heterozygous SNVs give {adm}", wit)
+    run.held(mon, "call-baf:" + ("default-labels" if snap["index_default"] else "odd-labels"))
+
+
 def attach_all(run, rt):
     import skgenome.tabio as T
     from skgenome.tabio import vcfio
@@ -334,4 +385,6 @@ def attach_all(run, rt):
     rt.attach(VA, "baf_by_ranges", name="VariantArray.baf_by_ranges", pre=pre_baf, post=post_baf)
     rt.attach(VA, "tumor_boost", name="VariantArray.tumor_boost", pre=pre_va, post=post_tumor_boost)
     rt.attach(VA, "mirrored_baf", name="VariantArray.mirrored_baf", pre=pre_va, post=post_mirrored)
+    import cnvlib.call as CL
+    rt.attach(CL, "do_call", name="call.do_call[baf-attached]", pre=pre_call_baf, post=post_call_baf, also=[(K, "do_call")])
     return traced
